@@ -13,6 +13,7 @@ See DESIGN.md section 4.
 Real: Arm, loadArmFromURDF, all fmr kernels (Numba), scipy.optimize.root in IKFree.
 Stub: `random` inside arm_model, sys.stdout.
 """
+import json
 import io
 import math
 import os
@@ -1213,6 +1214,30 @@ def gen_trace(seed):
             t2 = tol_step()
             if t2:
                 steps.append(t2)
+    # The same question twice: a solve, then a change of what the answer depends on (tighter tolerances, other limits) or
+    # nothing at all, then the same goal from the same start again.  An answer remembered from the first time is only an
+    # answer to the second question if everything it depends on is the same (seeded change c07p: a memo keyed on goal, start,
+    # geometry and limits, not on the tolerances).
+    rq = stream(seed, "reask")
+    if rq.random() < 0.12:
+        cands = [i_ for i_, x in enumerate(steps) if x["op"] in ("IK", "cIK") and x.get("start") is not None
+                 and x["goal"]["k"] in ("fk", "pose")]
+        if cands:
+            i_ = rq.choice(cands)
+            q = steps[i_]
+            coarse = {"op": "tol", "pos": float("%.3g" % log_uniform(rq, 1e-3, 5e-2)), "rot": float("%.3g" % log_uniform(rq, 1e-3, 5e-2))}
+            again = json.loads(json.dumps(q))
+            if "rs" in again:
+                again["rs"] = dict(again["rs"], seed=rq.getrandbits(32))
+            what = pick_weighted(rq, [("tol", 4.0), ("limits", 1.0), ("nothing", 1.0)])
+            between = []
+            if what == "tol":
+                between = [{"op": "tol", "pos": float("%.3g" % (coarse["pos"] * 10 ** -rq.uniform(2, 5))),
+                            "rot": float("%.3g" % (coarse["rot"] * 10 ** -rq.uniform(2, 5)))}]
+            elif what == "limits":
+                between = [{"op": "limits", "mins": [float(x) * 0.93 for x in mins], "maxs": [float(x) * 0.93 for x in maxs],
+                            "how": rq.choice(["setter", "assign", "inplace"])}]
+            steps[i_:i_ + 1] = [coarse, q] + between + [again]
     # A violation ends a history -- also one that the known-findings file then tolerates.  Goals half a turn from the start hit
     # the half-turn finding in every second call, so they go last: nothing generated after them is lost (review 2).
     steps = [x for x in steps if x.get("goal", {}).get("k") != "halfturn"] + [x for x in steps if x.get("goal", {}).get("k") == "halfturn"]
